@@ -134,8 +134,19 @@ def h_default_tmax_follows(edit: int, f_space: int, opt: int) -> bool:
     post: _
     """
     return default_tmax_follows(edit, f_space, opt)
+
+
+def h_times_in_units(u: int, g: int, opt: int, tu: int) -> bool:
+    """
+    pre: 0 <= u <= 10 and 0 <= g <= 1 and 0 <= opt <= 2 and 0 <= tu <= 3
+    post: _
+    """
+    return step_count_in_units(u, g, opt, tu)
 '''
     mod = pysym.write_module("hgen_C09", text)
     pysym.run_auto(rec, mod, [{"fn": "h_default_tmax_follows", "what": "t_max left at its default is the last requested time of the script AS IT IS when the engine is set up (sample times replaced by a longer / shorter list or edited in place); "
                                "an explicit t_max stays; dictionary round trip and copy agree (grid/graph x 3 engine kinds)", "sig": "c09-default-tmax", "structure": "script",
-                               "viol": "the default t_max is a stale copy of an earlier last sample time"}])
+                               "viol": "the default t_max is a stale copy of an earlier last sample time"},
+                              {"fn": "h_times_in_units", "what": "requested sample times, sampling interval, t_max and time step written with their own time unit (ms, min, h, s; array with units / list of quantities) under any of the 11 script systems reach the "
+                               "native engine on ONE common scale (requested time / time step, interval / time step, t_max / time step are the physical ratios): grid and graph set-up routines, 3 engine kinds",
+                               "sig": "c09-times-units", "structure": "script", "viol": "requested times (or interval / t_max) reach the engine on another scale than the time step: records are taken at other physical times than those requested"}])
